@@ -548,9 +548,39 @@ def breakdown_descs(rng, count, types=("d",), gen=None, meas=2):
         near = {"blk": "nearblk", "e1": "neare1"}.get(sv)
         if near and ty != "f" and i % 3 == 0:
             kw["sv1"] = near
-            kw["dlt"] = -(6 + (i // 3) % 6)
+            kw["dlt"] = -(6 + (i // 3) % 8)
             kw["args0"] = kw["args0"].rsplit(":", 2)[0] + ":-10:" + kw["args0"].rsplit(":", 1)[1]
         out.append(desc(**kw))
+    return out
+
+
+def near_descs(rng, classes=("sym", "herm", "gen"), types=("d",), meas=2):
+    """NEAR breakdowns, systematically: start vector 10^dlt (dlt = -8 .. -12) away from an invariant subspace - the leading block of a
+    block-diagonal matrix (the near breakdown happens inside factorize_from, at step blk) or an eigenvector e1 of a diagonal / triangular
+    matrix (it happens in Arnoldi::init).  The residual at the would-be breakdown is about 10^dlt: far above rounding level, so it must
+    be kept and the basis must stay orthonormal; thresholds that are a few orders too generous drop it."""
+    out = []
+    i = 0
+    for cls in classes:
+        gen = cls == "gen"
+        for dlt in (-8, -9, -10, -11, -12):
+            for kind in ("blk2", "blk3", "blk4", "e1"):
+                i += 1
+                ty = types[i % len(types)]
+                n = 12 + (i * 5) % 11
+                if kind == "e1":
+                    if cls == "herm":
+                        continue
+                    f, sv = (dict(fam="tri") if gen else dict(fam="diag", spec="lin")), "neare1"
+                else:
+                    f, sv = dict(fam="blockdiag", blk=int(kind[3])), "nearblk"
+                rule = (0, 1)[i % 2] if gen else (0, 3, 7)[i % 3]
+                if kind == "e1" and not gen:
+                    rule = 7    # diag(1..n): e1 belongs to the smallest eigenvalue, so the pair the near breakdown concerns is a wanted one
+                kw = dict(cls=cls, ty=ty, n=n, nev=1 + i % 2, ncv=min(n, 7 + i % 3), seed=rng.randint(1, 10 ** 6), hist="N,V1,C0", sv1=sv,
+                          args0="%d:20:-10:%d" % (rule, rule), meas=meas, ref=0, lgs=0, dlt=dlt)
+                kw.update(f)
+                out.append(desc(**kw))
     return out
 
 
